@@ -108,6 +108,32 @@ pub fn gen(a: &Args) -> Vec<String> {
         let extra: Vec<Vec<u64>> = (0..rng.below(3)).map(|_| rand_perm(&mut rng, n)).collect();
         cases.push(case_for(n, &gens, &mut rng, &probes, &extra));
     }
+    // 3. incremental growth: a group built from one generator, then several add_set calls of single
+    //    permutations (cycles, transpositions, random), with count / all / membership after every step
+    for c in 0..(a.count.max(200)) {
+        let mut rng = Rng::new(a.seed, 500_000 + c);
+        let n = 4 + rng.below(3) as usize;
+        let special = |rng: &mut Rng, n: usize| -> Vec<u64> {
+            let mut v: Vec<u64> = (0..n as u64).collect();
+            match rng.below(4) {
+                0 => { let i = rng.below(n as u64) as usize; let j = rng.below(n as u64) as usize; v.swap(i, j); }
+                1 => { let l = rng.range(3, n as u64) as usize; let first = v[0]; for i in 0..l - 1 { v[i] = v[i + 1]; } v[l - 1] = first; }
+                2 => { if n >= 4 { v.swap(0, 1); v.swap(2, 3); } }
+                _ => { rng.shuffle(&mut v); }
+            }
+            v
+        };
+        let g0 = special(&mut rng, n);
+        let mut v = vec![sym("c10"), checks_flag(), num(n as u64), lst(vec![sym("gens"), psx(&g0)]), sym("count")];
+        for _ in 0..rng.range(2, 4) {
+            let p = special(&mut rng, n);
+            v.push(lst(vec![sym("addset"), psx(&p)]));
+            v.push(sym("count")); v.push(sym("all"));
+            for _ in 0..6 { v.push(lst(vec![sym("contains"), psx(&rand_perm(&mut rng, n))])); }
+            v.push(lst(vec![sym("addset"), psx(&p)]));
+        }
+        cases.push(lst(v).to_string());
+    }
     cases
 }
 
